@@ -406,7 +406,7 @@ Proof.
                  c15_py_variant_ok _ (evariants sh) vs); [|auto|exact Hvs].
         eapply mmapM_Forall2; [|exact Hv]. intros v s0 x s0' Hx Hok.
         eapply py_variant_ok_ir; [| | | |exact Hx]; assumption.
-  - apply mbind_ok in H as (ty & s1 & Hty & H). inv_ret H. cbn [forallb py_decl_ok]. rewrite andb_true_r.
+  - apply mbind_ok in H as (ty & s1 & Hty & H). apply mbind_ok in H as (utv & stv & _ & H). inv_ret H. cbn [forallb py_decl_ok]. rewrite andb_true_r.
     repeat (apply andb_true_iff; split); try assumption. eapply py_texp_plain; eauto.
   - apply mbind_ok in H as (ty & s1 & Hty & H). inv_ret H. cbn [forallb py_decl_ok]. rewrite andb_true_r.
     repeat (apply andb_true_iff; split).
